@@ -67,7 +67,7 @@ NOT_APPLICABLE = {
 # properties whose check is planned in DESIGN.md but not built yet in this revision
 PENDING = {k: "check not built yet in this revision of /verif (planned, DESIGN.md §4); not claimed until it exists"
            for k in ["C04", "C05", "C07", "C08", "C11", "C12", "C14", "C16",
-                     "C17", "C18", "C19", "C20"]}
+                     "C17", "C18", "C19"]}
 
 
 def _add(p):
@@ -246,4 +246,32 @@ _add(Prop(
           "the inverse view restores pointer and length; boxed conversions keep the allocation, and with CBMC's leak "
           "check both the success and the failure path free it; the in-place operations equal the element-wise frame "
           "operation and never return (nor run the mapping closure) on a length mismatch.",
+))
+
+
+_add(Prop(
+    "C20", "c20_window", "c20",
+    functions=["dasp_window::Hann::window (f64, f32)", "dasp_window::Rectangle::window", "dasp_signal::window::Window::{new, next}",
+               "dasp_signal::window::Windower::{new, rectangle, next, size_hint}", "dasp_signal::window::Windowed::next",
+               "dasp_signal::{rate, Rate::const_hz, ConstHz::step, phase, Phase::next_phase}"],
+    bounds="Hann: every phase in [0,1] (f64 and f32) with cos replaced by a recording marker returning any value in "
+           "[-1,1]; windower step: any remaining length <= 16, ANY usize bin >= 2 and hop >= 1 (one step, with the "
+           "closed-form chunk count's recurrence => induction over the run); whole runs: L <= 6 (quick) / 8 (thorough), bin 2..=9, hop 1..=9; "
+           "Window::new(n): n in 2..=64, first 4 frames; hann_f64 over all f64 phases only in the thorough tier "
+           "(quick: phases k/2^20)",
+    outside="numeric Hann facts (symmetry, 1 at p=0.5, 0 at the ends) - they are facts about libm's cos; the exact "
+            "phases i/(n-1) for i >= 1: CBMC models float `%` by its range only (measured), so only phase_0 = 0, the "
+            "step value 1/(n-1) and the range [0,1) are decided; remaining lengths > 16",
+    stubs=["dasp_window::hann::ops::f64::cos -> recording marker returning a harness-chosen value in [-1, 1] (hann_f64, hann_f32)"],
+    assumptions=["|cos(x)| <= 1 (the only property of cos used)"],
+    rules=[
+        {"match": r"shape::hann_f(64|32|64_grid)$", "tier": "thorough", "timeout": 2400},
+    ],
+    design_ref="DESIGN.md §4 C20",
+    claim="The solver shows hann(p) == 0.5*(1 - cos(2*pi*p)) structurally (cos stubbed by a recording marker) and within "
+          "[0,1] under |cos|<=1, rectangle == 1; from any remaining length <= 16 with any bin/hop one windower step "
+          "yields a chunk iff a full bin remains, the chunk is frames[..bin] times the window, the remainder is "
+          "frames[hop..], and size_hint brackets the closed-form number of chunks still to come (whose recurrence is "
+          "asserted, so the count floor((L-b)/h)+1 and the hint's consistency follow for whole runs; whole runs are "
+          "also decided directly for L <= 8).",
 ))
